@@ -102,7 +102,7 @@ var c06IndexExceptions = map[string]string{
 	"syntax.(Parser).quotedHdocWord#p.hdocStops":  "as for advanceLitHdoc",
 	"syntax.(Parser).doHeredocs#p.hdocStops":      "indexes the stop word it appended a few lines above",
 	"syntax.(Parser).advanceLitNone#p.litBs":      "newLit(r) started the literal with the current rune before the loop",
-	"syntax.(Parser).isLitRedir#lit":              "called when a redirection operator follows at least one literal byte; litBs then holds that byte and the operator",
+	"syntax.(Parser).isLitRedir#lit":              "recogniser agreement: called when a redirection operator follows at least one literal byte; a literal begins with `<` only as a zsh numeric range, which next() and advanceLitNone recognise under the same conditions",
 	"syntax.(Parser).doRedirect#r.N.Value":        "getLit returns literal tokens, which are never empty",
 	"syntax.(Parser).hasValidIdent#p.val":         "eqlOffs is the offset of '=' inside the current literal p.val: set by advanceLitNone for that token and cleared by next()",
 	"syntax.(Parser).getAssign#p.val":             "as for hasValidIdent",
@@ -1119,6 +1119,8 @@ func findBspMinus(info *types.Info, fd *ast.FuncDecl, e ast.Expr) ast.Expr {
 }
 
 var c06Controls = []Control{
+	{Name: "numeric-range-recognisers-disagree-inside-a-test", Rule: "R06i", WantKey: "isLitRedir#lit", File: "syntax/lexer.go",
+		Mutate: ctlReplaceAnywhere("\t\t\tif r == '<' && p.lang.in(LangZsh) && p.zshNumRange() {\n\t\t\t\t// Zsh numeric range glob like", "\t\t\tif r == '<' && p.quote != testExpr && p.lang.in(LangZsh) && p.zshNumRange() {\n\t\t\t\t// Zsh numeric range glob like")},
 	{Name: "token-after-a-comment-read-by-recursion", Rule: "R06m", WantKey: "next#a lexer function does not call itself", File: "syntax/lexer.go",
 		Mutate: ctlReplaceAnywhere("\t\t\tgoto restart\n", "\t\t\tp.next()\n")},
 	{Name: "literal-start-width-from-the-rune-value", Rule: "R06f", WantKey: "newLit#p.bs", File: "syntax/lexer.go",
